@@ -38,6 +38,9 @@ def must(w, m):
 
 
 def run(c):
+    if getattr(c, "replay_file", None):
+        import json
+        return A.replay(c, json.load(open(c.replay_file))["replay"], A.C16_CLAUSES)
     rnd = random.Random(c.seed)
     t0, ph = time.time(), {}
     # ---- M
@@ -57,27 +60,29 @@ def run(c):
     ph["model_checking"] = round(time.time() - t0, 1)
     other_sid = A.real_other_session_id()
     # ---- RP: spec -> code
-    jobs = A.replay_jobs(rnd, wits, msgs, 50 if c.quick else 5000, weight, must, "rp")
+    jobs = A.replay_jobs(rnd, wits, msgs, 40 if c.quick else 3500, weight, must, "rp")
     # walks to the cap: each witness as single messages, then the states next to the cap extended by every kind of
     # message, once step by step and once with everything pipelined into the server's input before it starts
     near = [w for w in capwits if w["alive"] and w["failCount"] >= 8]
-    far = [w for w in capwits if w not in near]
-    rnd.shuffle(far)
-    rnd.shuffle(near)
-    ext = [m for m in msgs if m["user"] in ("", "alice") and m["service"] in ("", "ssh-connection")]
-    for w in far[:8 if c.quick else len(far)]:
+    atcap = [w for w in capwits if not w["alive"] and w["failCount"] >= 10]
+    far = [w for w in capwits if w not in near and w not in atcap]
+    for grp in (far, near, atcap):
+        rnd.shuffle(grp)
+    ext = [m for m in msgs if m["user"] in ("", A.primary(msgs)) and m["service"] in ("", "ssh-connection")]
+    for w in far[:3 if c.quick else len(far)]:
         jobs.append({"bursts": A.single(w["hist"]), "opts": {}, "key": "cap|" + A.seq_key(w["hist"]), "names": A.DEFAULT_NAMES})
-    for w in near[:4 if c.quick else len(near)]:
-        for m in rnd.sample(ext, 5 if c.quick else 40):
-            seq = w["hist"] + [m] + [rnd.choice(ext) for _ in range(3)]
-            jobs.append({"bursts": A.single(seq), "opts": {}, "key": "cap1|" + A.seq_key(seq), "names": A.DEFAULT_NAMES,
-                         "sample": len(jobs) % 41 == 0})
-            jobs.append({"bursts": [seq], "opts": {}, "key": "capP|" + A.seq_key(seq), "names": A.DEFAULT_NAMES})
+    walks = [(w, m) for w in near[:3 if c.quick else len(near)] for m in rnd.sample(ext, 4 if c.quick else 40)]
+    walks += [(w, rnd.choice(ext)) for w in atcap[:2 if c.quick else len(atcap)]]      # the cap itself, then more requests
+    for w, m in walks:
+        seq = w["hist"] + [m] + [rnd.choice(ext) for _ in range(3)]
+        jobs.append({"bursts": A.single(seq), "opts": {}, "key": "cap1|" + A.seq_key(seq), "names": A.DEFAULT_NAMES,
+                     "sample": len(jobs) % 41 == 0})
+        jobs.append({"bursts": [seq], "opts": {}, "key": "capP|" + A.seq_key(seq), "names": A.DEFAULT_NAMES})
     traces = A.execute(c, jobs, other_sid, "TLC-generated")
     ph["replay"] = round(time.time() - t0, 1)
     # ---- TV: code -> spec
     jobs = [A.random_job(rnd, rnd.randint(6, 25), {"ok": 0.03, "switch": 0.03, "service": 0.02, "gss": 0.3}, "tv")
-            for _ in range(50 if c.quick else 2500)]
+            for _ in range(40 if c.quick else 2000)]
     traces += A.execute(c, jobs, other_sid, "random")
     ph["random"] = round(time.time() - t0, 1)
     A.validate(c, traces, A.C16_CLAUSES)
